@@ -1620,6 +1620,35 @@ clear configure tunnel-group VPN-tunnel-DRC-0
 =END=
 
 ############################################################
+=TITLE=Replace certificate map of certificate-group-map having different index
+# Changed rule must use index of new certificate map.
+=DEVICE=
+tunnel-group VPN-tunnel-DRC-0 type remote-access
+crypto ca certificate map ca-map-DRC-0 20
+ subject-name attr ea co @sub.example.com
+webvpn
+ certificate-group-map ca-map-DRC-0 20 VPN-tunnel-DRC-0
+=NETSPOC=
+tunnel-group VPN-tunnel type remote-access
+crypto ca certificate map ca-map 10
+ subject-name attr ea co @sub.example.com
+tunnel-group-map ca-map 10 VPN-tunnel
+webvpn
+ certificate-group-map ca-map 10 VPN-tunnel
+=OUTPUT=
+crypto ca certificate map ca-map-DRC-1 10
+subject-name attr ea co @sub.example.com
+tunnel-group VPN-tunnel-DRC-1 type remote-access
+tunnel-group-map ca-map-DRC-1 10 VPN-tunnel-DRC-1
+webvpn
+no certificate-group-map ca-map-DRC-0 20 VPN-tunnel-DRC-0
+certificate-group-map ca-map-DRC-1 10 VPN-tunnel-DRC-1
+exit
+clear configure crypto ca certificate map ca-map-DRC-0
+clear configure tunnel-group VPN-tunnel-DRC-0
+=END=
+
+############################################################
 =TITLE=Leave webvpn with unhandled subcommands unchanged
 =DEVICE=
 webvpn
